@@ -55,6 +55,7 @@ struct seed_t {
     std::string bytes;
     int kind = 0;           // format-specific: which native type reads it
     bool rep = false;       // representative of its variant (used for the expensive enumerations in quick)
+    bool sparse = false;    // truncation at head + strided points only even when small (seeds whose every truncation dies at an open finding)
 };
 
 struct input_t {
@@ -404,6 +405,7 @@ template <class F> static void run_device(input_t const& in, dev_kind d, uint64_
     }
 }
 
+static int g_devmask = 7;              // --devmask N: 1 istream, 2 FILE*, 4 file name (tooling: exercise one device's counters alone)
 // a whole case
 template <class F> static void run_input(std::string const& bytes, bool truncated_valid, bool with_filename, bool with_subrect) {
     input_t in;
@@ -420,9 +422,9 @@ template <class F> static void run_input(std::string const& bytes, bool truncate
     c11::arm_cpu_net(200);
     g_info_declared = 0;
     // the std::istream device first: its counters have seen every kind of spin since the first version of the monitor
-    run_device<F>(in, D_ISTREAM, salt, with_subrect);
-    if (F::has_FILE) run_device<F>(in, D_FILE, salt, with_subrect);
-    if (with_filename) run_device<F>(in, D_NAME, salt, with_subrect);
+    if (g_devmask & 1) run_device<F>(in, D_ISTREAM, salt, with_subrect);
+    if (F::has_FILE && (g_devmask & 2)) run_device<F>(in, D_FILE, salt, with_subrect);
+    if ((with_filename && (g_devmask & 4)) || g_devmask == 4) run_device<F>(in, D_NAME, salt, with_subrect);
 }
 
 static std::string hex_head(std::string const& b, size_t n = 48) {
@@ -525,8 +527,8 @@ template <class F> static void generic_families(std::vector<seed_t> const& seeds
     // (i) truncation at every byte (small seeds) / every head byte + stride (larger seeds)
     for (auto const& s : seeds) {
         if (!T && !s.rep && s.bytes.size() > 2048) continue;
-        size_t every = T ? 4096 : 640;
-        std::vector<size_t> pts = c11::truncation_points(s.bytes.size(), every, T ? 512 : 128, T ? 384 : (s.rep ? 24 : 12));
+        size_t every = s.sparse ? 0 : T ? 4096 : 640;
+        std::vector<size_t> pts = c11::truncation_points(s.bytes.size(), every, T ? 512 : (s.sparse ? 24 : 128), T ? 384 : (s.rep ? 24 : 12));
         for (size_t len : pts)
             MUT("truncate", vh::cat(s.name, "@", len), true, true, [&] { return s.bytes.substr(0, len); });
     }
@@ -573,8 +575,8 @@ template <class F> static void generic_families(std::vector<seed_t> const& seeds
 static bool load_fixture(const char* fmt, const char* rel, std::string& out) {
     return c11::slurp(c11::fixture_dir(fmt) + "/" + rel, out);
 }
-static void add_seed(std::vector<seed_t>& v, std::string name, std::string variant, std::string bytes, int kind, bool rep) {
-    seed_t s; s.name = name; s.variant = variant; s.bytes = bytes; s.kind = kind; s.rep = rep; v.push_back(s);
+static void add_seed(std::vector<seed_t>& v, std::string name, std::string variant, std::string bytes, int kind, bool rep, bool sparse = false) {
+    seed_t s; s.name = name; s.variant = variant; s.bytes = bytes; s.kind = kind; s.rep = rep; s.sparse = sparse; v.push_back(s);
 }
 static void add_fixture(std::vector<seed_t>& v, const char* fmt, const char* rel, std::string variant, int kind, bool rep, size_t max_len = 40960) {
     std::string b;
@@ -1371,6 +1373,7 @@ int main(int argc, char** argv) {
     g_fmt = F::name();
     g_strict_fields = F::strict_field_reads;
     g_list_only = vh::opt_long("list", 0) != 0;
+    g_devmask = (int)vh::opt_long("devmask", 7);
     format_setup();
     build_seeds();
     generic_families<F>(g_seeds);
